@@ -804,7 +804,7 @@ def orc_scale_affine(case):
     else:
         ta, tb = _mk(a1 * a + b1), _mk(a2 * b + b2)
     after = compare(ta, tb, method=method, **kw)
-    tol = 1e-5 if case.get('sigma') == 'matrix' else 1e-9
+    tol = 1e-5 if case.get('sigma') in ('matrix', 'vector') else 1e-9   # a given sigma_k goes through the conjugate-gradient solve
     d = _vec_diff(after, before, tol)
     if d:
         return (f'{method} (sigma_k {case.get("sigma", "none")}): value changed under x -> {a1}*x+{b1} (first stack), '
